@@ -129,3 +129,20 @@ pub fn lemma_encrypt_decrypt_round_trip(key: &Key, data: &[u8]) -> (r: Option<Ve
         Err(_) => None,
     }
 }
+
+// ---- a new repository gets a fresh random master key ----
+// "drawn from the entropy source": a fact only rand's fill_bytes on a key buffer produces
+pub uninterp spec fn RANDOM_KEY(k: AeadKey) -> bool;
+pub fn vaeadkey_default() -> (r: AeadKey) ensures r == (AeadKey { _opaque: 0 }), { AeadKey { _opaque: 0 } }
+#[verifier::external_body]
+pub fn vrng_fill_key(k: &mut AeadKey) ensures RANDOM_KEY(*final(k)), { unimplemented!() }
+impl Key {
+    // #[derive(Default)]: the all-zero key (NOT a random key)
+    pub fn default() -> (r: Key) ensures r.0 == (AeadKey { _opaque: 0 }), { Key(AeadKey { _opaque: 0 }) }
+}
+pub struct KeyOptionsK { pub _opaque: u64 }
+pub struct VRepoK { pub _opaque: u64 }
+pub struct KeyIdK { pub _opaque: u64 }
+// add_key_to_repo: wraps the key under the password (KeyFile::generate, unit kf_generate) and stores the key file
+#[verifier::external_body]
+pub fn vadd_key_to_repo(repo: &VRepoK, opts: &KeyOptionsK, pass: &str, key: Key) -> RusticResult<KeyIdK> { unimplemented!() }
